@@ -214,7 +214,13 @@ func ExecuteSubscription(p ExecuteParams) chan *Result {
 					if !more {
 						return
 					}
-					resultChannel <- mapSourceToResponse(res)
+					// the consumer may have stopped reading: do not stay blocked
+					// on the send once the subscription is cancelled
+					select {
+					case resultChannel <- mapSourceToResponse(res):
+					case <-p.Context.Done():
+						return
+					}
 				}
 			}
 		default:
